@@ -1,2 +1,12 @@
 #!/bin/sh
+# Offline build of the framework: translator, Coq project (full .vo build), harness programs.
+set -u
+cd "$(dirname "$0")"
+export GOFLAGS=-mod=mod GOPROXY=off
+mkdir -p out/bin
+(cd xlate && go build -o ../out/bin/xlate .) || exit 1
+for s in xlate/specs/*.json; do out/bin/xlate -repo /repo -spec "$s" -out coq/Gen || echo "setup: xlate refused $s"; done
+(cd coq && { echo "-Q . TD"; ls */*.v; } > _CoqProject && coq_makefile -f _CoqProject -o Makefile >/dev/null && timeout 3000 make -j16 -k >../out/setup-make.log 2>&1; echo "setup: coq make exit $?"; tail -3 ../out/setup-make.log)
+cp /repo/go.sum harness/go.sum
+(cd harness && go build -tags verif ./... ) || echo "setup: harness build reported errors"
 exit 0
